@@ -59,5 +59,4 @@ class C07(Prop):
         return any(not tok.startswith("-,-,-,0=") for tok in impl.split(" ") if "=" in tok)
 
     def shrink_fields(self, line):
-        parts = line.split(" ")
-        return [1] if len(parts) > 2 and parts[2] == "-" else []
+        return []   # byte-level shrinking would leave the SGR grammar the specification is stated on
